@@ -58,6 +58,8 @@ def run(ctx):
             space["doltdb_level_routes"] = "all"
         spaces.append(space)
         cases += cs
+        if cfg == cfgs[0]:
+            acases = be.amp_cases(ctx, graphs, ctx.q(24, 240), ctx.q([130, 100, 300], [130, 100, 300, 700]))
         del graphs
     be.tag(cases, "main", "dag")
     ctx.cov["space"] = spaces
@@ -93,6 +95,13 @@ def run(ctx):
           "closure_walk_picked_other": sum(r.get("tiesClosureOther", 0) for r in res),
           "set_closure_routes_differ_from_FindCommonAncestor": sum(r.get("routeDisagree", 0) for r in res)}
     notes = [n for r in res for n in (r.get("notes") or [])]
+    # amplified binding: the same expectations on deep histories (heights in the hundreds, multi-level closure trees)
+    be.tag(acases, "main", "dag")
+    ares = ctx.replay_behaviours(binary, acases, args=["dag"], critical=critical, wrap=lambda c: c, env=ENV, timeout=ctx.q(3600, 30000),
+                                 fingerprint=lambda c, r: "C19:" + str(r.get("fp")))
+    ctx.cov["amplified"] = amp_summary(ares)
+    if not ctx.violations and (ctx.cov["amplified"]["max_real_height"] < 512 or "2" not in ctx.cov["amplified"]["closure_tree_heights"]):
+        raise vlib.Inconclusive("amplified cases did not reach heights >= 512 / two-level closure trees: %s" % ctx.cov["amplified"])
     # in-package: the parents-list walk on every DAG (it is the merge-base route for commits without a closure)
     be.tag(icases, "inpkg", "dag")
     ctx.binding_selftest(inpkg, icases[len(icases) // 2], corrupt, test_run="TestVerifCommitGraph", env=ENV)
@@ -123,6 +132,15 @@ def run(ctx):
     ctx.cov["samples"] = [{"case": ({"graph": be.short_graph(s["case"]["graph"]), "binding": s["case"]["binding"]} if "graph" in s["case"]
                                     else {"steps": s["case"]["steps"], "final": be.short_graph(s["case"]["final"])}), "result": s["result"]}
                           for s in ctx.cov["samples"]]
+
+
+def amp_summary(ares):
+    th = {}
+    for r in ares:
+        for k, v in (r.get("closureTreeHeights") or {}).items():
+            th[k] = th.get(k, 0) + v
+    return {"cases": sum(1 for r in ares if r.get("ok")), "chain_lengths": sorted({r.get("amp") for r in ares if r.get("amp")}),
+            "max_real_height": max([r.get("realMaxHeight", 0) for r in ares] or [0]), "closure_tree_heights": th}
 
 
 def critical_inpkg(c, r):
